@@ -5,7 +5,8 @@ adapter, direct oracle, shrinker: harness/impl/clausegenfr.py.
 Correspondence: every specification is rendered by the harness' own trivial mapping into `S(subj, VP(V, …))` and
 `root(V, subj(..), comp(..)…)`, realized by the real pyrealb (elision switched off for the comparison: elision is
 C06's) and by the model driver; token lists (kind, lemma, form, liaison) and exceptions are compared.
-Oracle: the text of C05 on the tokens of the unmodified realization."""
+Oracle: the text of C05 on the tokens of the unmodified realization; stratum `cross_language`: the same clause built
+under loadFr() and realized after loadEn(), and built with lang="fr" everywhere under loadEn(), gives the same text."""
 import json
 
 from harness import core
@@ -31,7 +32,9 @@ META = {
             "int 13); quick: 6.5k of the 19152 flag combinations + 65 clitic arrangements x 18 contexts + 1.5k lexicon verbs "
             "+ 4k random; thorough: the complete flag product x 26 (panel verb, structure) draws + all arrangements x 72 "
             "contexts + every lexicon verb x 10; non-trivial = a typ flag, a compound tense or a pronominalized complement, "
-            "counted once per (abstract specification, notation, answer)",
+            "counted once per (abstract specification, notation, answer); every specification is realized four more times "
+            "with English as the current language (built under loadFr() then loadEn(); lang=\"fr\" everywhere under "
+            "loadEn()) and the texts compared",
     "assumptions": ["A_elision_independent: switching doElision off does not change which tokens doPronounPlacement moves "
                     "(no pronoun of the fragment is elided below the level where it is placed); measured each run in "
                     "notes.elision_changed_tokens (contractions like de+le are C06 findings)"],
@@ -62,7 +65,7 @@ def search(ctx):
     """a proof or the correspondence broke: look at the disagreeing inputs first, then a fresh larger sample"""
     for d in list(ctx.corr_diffs):
         sp = d["line"]["spec"]
-        for (cl, det, nota) in sorted(G.c05_keys(sp)):
+        for (cl, det, nota) in sorted(G.c05_keys(sp, cross=True)):
             sig, small, notas = G.c05_signature(sp, cl, det, nota)
             ctx.fail(sig, {"op": "clause", "spec": small, "notas": notas, "clause": cl, "detail": det},
                      {"violates": cl, "detail": det, "how_found": "correspondence difference"})
@@ -84,4 +87,8 @@ def replay(path):
         print(nota, "->", a["err"] or a["text"])
         for v in G.oracle_c05(spec, nota, a):
             print("   violates", v)
+        for mode in G.CROSS_MODES:
+            t = G.realize_cross(spec, nota, mode)
+            if t != (("!" + a["err"]) if a["err"] else a["text"]):
+                print("   violates ('cross_language', %r): %s" % (mode, t))
     return 0
